@@ -70,6 +70,11 @@ type Cross struct {
 	// buffer (Conn.UDPSize = ClientUDPSize, 0 = 1232 as in every earlier round).
 	Fill          string `json:",omitempty"`
 	ClientUDPSize int    `json:",omitempty"`
+	// Round 10 (see junk_test.go). Junk = m > 0: client cl sends an item that is no request (0..11 octets,
+	// or a message with the QR bit set) right before its q-th request when (cl+q) mod m == 0; JunkKinds,
+	// cyclic by cl*5+q: 0..11 = that many octets, 100 = the QR copy of the request.
+	Junk      int   `json:",omitempty"`
+	JunkKinds []int `json:",omitempty"`
 }
 
 func genCross(transports []string) func(t *rapid.T) Cross {
@@ -134,6 +139,13 @@ func genCross(transports []string) func(t *rapid.T) Cross {
 			c.Fill = rapid.SampledFrom([]string{"request", "reply", "both", "both"}).Draw(t, "fillSide")
 			if c.fillsReplies() {
 				c.ClientUDPSize = rapid.SampledFrom([]int{0, 0, 512, 4096}).Draw(t, "clientUDPSize")
+			}
+		}
+		if rapid.IntRange(0, 9).Draw(t, "junk") < 4 {
+			c.Junk = rapid.SampledFrom([]int{1, 2, 2, 3, 5}).Draw(t, "junkMod")
+			nk := rapid.IntRange(1, 4).Draw(t, "nJunkKinds")
+			for i := 0; i < nk; i++ {
+				c.JunkKinds = append(c.JunkKinds, rapid.SampledFrom([]int{0, 1, 2, 3, 4, 5, 6, 7, 8, 9, 10, 11, 11, 5, junkResponse, junkResponse}).Draw(t, "junkKind"))
 			}
 		}
 		return c
@@ -288,11 +300,7 @@ func (s *crossState) request(cl, q, pad int) *dns.Msg {
 	tok := s.token(cl, q)
 	m := new(dns.Msg)
 	m.SetQuestion(tok+".x.test.", dns.TypeTXT)
-	if c.SameIDs {
-		m.Id = uint16(q)
-	} else {
-		m.Id = uint16(cl*251 + q*7 + int(c.Salt&0xff))
-	}
+	m.Id = s.requestID(cl, q)
 	m.Compress = c.Compress
 	txt := []string{tok}
 	for ; pad > 0; pad -= min(pad, 255) {
@@ -357,6 +365,15 @@ type crossState struct {
 	filledSeen   atomic.Int32 // ... that a recording client saw arrive with exactly that many octets
 	wireChecked  atomic.Int32 // replies compared octet-wise through the harness's own decoder
 	alien        atomic.Int32
+	// round 10 (junk_test.go)
+	junkSent     map[string]int // hex of a short item -> how many of them were sent
+	junkRefused  map[string]int // hex of what MsgInvalidFunc was told -> how often
+	junkShort    atomic.Int32   // items of 0..11 octets sent
+	junkIgnored  atomic.Int32   // QR copies sent
+	junkReported atomic.Int32   // short items the server reported to MsgInvalidFunc
+	conns        []net.Conn     // the clients' transports of the current round (abort)
+	aborted      chan struct{}
+	abortOnce    sync.Once
 	calls        atomic.Int32
 	active       atomic.Int32
 	maxAct       atomic.Int32
@@ -523,9 +540,14 @@ func (s *crossState) handler(w dns.ResponseWriter, req *dns.Msg) {
 	finish()
 }
 
+func newCrossState(c Cross) *crossState {
+	return &crossState{c: c, seen: map[string]int{}, addrs: map[int]string{}, junkSent: map[string]int{}, junkRefused: map[string]int{}, aborted: make(chan struct{}),
+		nonce: fmt.Sprintf("p%dr%d", os.Getpid(), crossSeq.Add(1))}
+}
+
 func checkCross(c Cross) error {
 	key, _ := json.Marshal(c)
-	s := &crossState{c: c, seen: map[string]int{}, addrs: map[int]string{}, nonce: fmt.Sprintf("p%dr%d", os.Getpid(), crossSeq.Add(1))}
+	s := newCrossState(c)
 	lost, err := s.run()
 	cl := []string{"transport=" + c.Transport, fmt.Sprintf("clients>=%d", bucket(c.Clients)), fmt.Sprintf("sameIDs=%v", c.SameIDs), fmt.Sprintf("tsig=%v", c.Tsig)}
 	if c.Tsig && s.tsigOK.Load() > 0 {
@@ -580,6 +602,22 @@ func checkCross(c Cross) error {
 	if s.filledSeen.Load() > 0 {
 		cl = append(cl, "observed:reply-datagram-of-exactly-the-client-buffer-size-arrived")
 	}
+	if s.junkShort.Load() > 0 {
+		what := "frames"
+		if c.datagramTransport() {
+			what = "datagrams"
+		}
+		cl = append(cl, what+"-too-short-for-a-header-among-the-requests")
+		if c.Restart {
+			cl = append(cl, what+"-too-short-for-a-header-among-the-requests,restart")
+		}
+	}
+	if s.junkIgnored.Load() > 0 {
+		cl = append(cl, "messages-with-QR-set-among-the-requests")
+	}
+	if s.junkReported.Load() > 0 {
+		cl = append(cl, "observed:short-items-reported-to-MsgInvalidFunc")
+	}
 	inflight := s.maxAct.Load() >= 2
 	if inflight {
 		cl = append(cl, "inflight>=2")
@@ -619,6 +657,7 @@ func bucket(n int) int {
 func (s *crossState) run() (lost int, err error) {
 	c := s.c
 	srv := &dns.Server{Handler: dns.HandlerFunc(s.handler), ReadTimeout: time.Minute, IdleTimeout: func() time.Duration { return time.Minute }, UDPSize: c.UDPSize}
+	srv.MsgInvalidFunc = s.invalid // observation point: every message the server refuses as invalid, with its octets
 	if c.IdleMs > 0 && c.datagramTransport() {
 		srv.ReadTimeout = time.Duration(c.IdleMs) * time.Millisecond
 		s.idle = true
@@ -765,6 +804,9 @@ func (s *crossState) round(srv *dns.Server, ph, pad int) (lost int, err error) {
 	}
 	var lostN atomic.Int32
 	var wg sync.WaitGroup
+	s.mu.Lock()
+	s.conns = nil
+	s.mu.Unlock()
 	gate := make(chan struct{})
 	for cl := 1; cl <= c.Clients; cl++ {
 		cl := cl
@@ -800,6 +842,7 @@ func (s *crossState) round(srv *dns.Server, ph, pad int) (lost int, err error) {
 			defer conn.Close()
 			s.mu.Lock()
 			s.addrs[cl] = conn.LocalAddr().String()
+			s.conns = append(s.conns, conn)
 			s.mu.Unlock()
 			var tee *teeConn
 			if cl%2 == 1 {
@@ -844,10 +887,23 @@ func (s *crossState) round(srv *dns.Server, ph, pad int) (lost int, err error) {
 					}
 					s.failedReq.Add(1)
 				}
+				if s.isAborted() {
+					return
+				}
+				if c.junkBefore(cl, q) {
+					packed, _ := m.Copy().Pack()
+					if e := s.sendJunk(conn, cl, q, packed); e != nil && !(udpReal && isTimeout(e)) && !s.isAborted() {
+						s.fail("%sclient %d request %d: writing the item that precedes it failed: %v", when, cl, q, e)
+						return
+					}
+				}
 				if tee != nil {
 					tee.got = nil
 				}
 				if e := co.WriteMsg(m); e != nil {
+					if s.isAborted() {
+						return
+					}
 					if udpReal && isTimeout(e) {
 						// the machine kept this goroutine off the processor for longer than the time-out
 						// between SetDeadline and the write: the request never left, like a lost datagram
@@ -870,6 +926,9 @@ func (s *crossState) round(srv *dns.Server, ph, pad int) (lost int, err error) {
 					rep, e = co.ReadMsg()
 				}
 				if e != nil {
+					if s.isAborted() {
+						return
+					}
 					if udpReal && isTimeout(e) {
 						// a straggling reply could now arrive during the next read: stop using this socket
 						lostN.Add(1)
@@ -929,6 +988,7 @@ func (s *crossState) round(srv *dns.Server, ph, pad int) (lost int, err error) {
 	}
 	close(gate)
 	done := make(chan struct{})
+	go s.watchAbort(done)
 	go func() {
 		wg.Wait()
 		for t0 := time.Now(); s.asyncPending.Load() > 0 && time.Since(t0) < 2*hangLimit; {
@@ -964,7 +1024,7 @@ func (s *crossState) round(srv *dns.Server, ph, pad int) (lost int, err error) {
 func probeRestartPool() error {
 	for attempt := 0; attempt < 8; attempt++ {
 		c := Cross{Transport: "memPacket", Clients: 32, Reqs: 3, SleepUs: []int{0, 200}, UDPSize: 0, Restart: true, UDPSize2: 4096, Big2: true, Salt: uint32(attempt)}
-		s := &crossState{c: c, seen: map[string]int{}, addrs: map[int]string{}, nonce: fmt.Sprintf("p%dr%d", os.Getpid(), crossSeq.Add(1))}
+		s := newCrossState(c)
 		if _, err := s.run(); err != nil {
 			return err
 		}
@@ -979,7 +1039,7 @@ func probeRestartPool() error {
 // "bad signature".
 func probeFailedSignedWrite() error {
 	c := Cross{Transport: "memPacket", Clients: 2, Reqs: 1, SleepUs: []int{0}, Tsig: true, FailMod: 1, FailKinds: []string{"txt300"}}
-	s := &crossState{c: c, seen: map[string]int{}, addrs: map[int]string{}, nonce: fmt.Sprintf("p%dr%d", os.Getpid(), crossSeq.Add(1))}
+	s := newCrossState(c)
 	_, err := s.run()
 	return err
 }
